@@ -30,6 +30,12 @@ cSqPrefix == <<"a", " ", cSQ, "q", cSQ, "+">>
 cCmtTabPrefix == <<"a", " ", "/", "*", cTAB, "*", "/", " ", cDQ, "x", cLF>> \o [i \in 1..8 |-> " "]
 cSqTabPrefix == <<"a", " ", cSQ, cTAB, "q", cSQ, "+", cDQ, "x", cLF>> \o [i \in 1..8 |-> " "]
 cDqClose == <<cDQ, ";">>
+\* seven blocks open and a keyword: what follows is a run of up to ten ";", "}" and blanks (closing runs longer than any
+\* look-ahead or token buffer the reader may have)
+cRunPrefix == <<"a","{","a","{","a","{","a","{","a","{","a","{","a","{","a">>
+RunAlphabet == One({";", "}", " "})
+\* a yang-version statement earlier in the text changes nothing about the strings that follow (escapes included)
+cYvPrefix == <<"y","a","n","g","-","v","e","r","s","i","o","n"," ","1",";","a"," ">>
 cMbPrefix == <<"E", " ", "/", "*", "E", cLF, "*", "/", cSQ, "E", cLF, cSQ, cTAB>>
 \* token level: whole lexemes
 TokAlphabet == { <<"k">>, <<"a","r","g">>, <<cDQ,"s"," ",cLF," "," ","t",cDQ>>, <<cSQ,"q",cSQ>>, <<"+">>, <<cDQ,"+",cDQ>>, <<";">>, <<"{">>, <<"}">>,
